@@ -17,6 +17,14 @@ use std::panic::{catch_unwind, AssertUnwindSafe};
 mod more;
 #[path = "c17_unproved.rs"]
 mod unproved;
+// D16d: DER-based decoders (attest/cd.rs, cert/x509/cert.rs, cert/x509/csr.rs, cert/der_utils.rs, `der` reading layer)
+#[path = "c17_x509.rs"]
+mod dercodecs;
+#[path = "c17_der.rs"]
+mod der; // D16c: ASN1Writer + CertRef::as_asn1 (kind `der`)
+// D16b: mDNS wire format, modelled (sub-stream `mdns2`)
+#[path = "c17_mdns.rs"]
+mod mdns2;
 
 /// where the last panic happened (recorded by the hook installed in `install_hook`)
 pub static LAST_PANIC: std::sync::Mutex<String> = std::sync::Mutex::new(String::new());
@@ -532,11 +540,17 @@ pub fn run_op(kind: &str, op: &str) -> String {
         "plainhdr" => plain::run(op),
         "protohdr" => protoh::run(op),
         "status" => status::run(op),
+        "mdns2" => mdns2::run(op), // D16b
         k => {
             if let Some(r) = more::run_op(k, op) {
                 r
             } else if let Some(r) = unproved::run_op(k, op) {
                 r
+            } else if let Some(r) = dercodecs::run_op(k, op) {
+                // D16d
+                r
+            } else if let Some(r) = der::run_op(k, op) {
+                r // D16c
             } else {
                 "badkind".into()
             }
@@ -981,6 +995,9 @@ pub fn gen(a: &Args) -> String {
     }
     more::gen(&mut r, &mut out, a.thorough, &mut id);
     unproved::gen(&mut r, &mut out, a.thorough, &mut id);
+    dercodecs::gen(&mut r, &mut out, a.thorough, &mut id); // D16d
+    der::gen(&mut r, &mut out, a.thorough, &mut id); // D16c
+    mdns2::gen(&mut r, &mut out, a.thorough, &mut id); // D16b
     out.finish()
 }
 
